@@ -207,7 +207,9 @@ fn main() {
          in operation, address-family mix, list-length bucket, set of textual address forms, set of port classes, metadata \
          size bucket, or reply mode / malformation class",
     );
-    if cli.prop != "C19" {
+    // C15 mode: only the clause "the announced source address is the address backend services see"
+    let backend_address_only = cli.prop == "C15";
+    if cli.prop != "C19" && !backend_address_only {
         report.inconclusive_fatal(&format!("vp-grpc only decides C19, not {}", cli.prop));
         std::process::exit(report.finish());
     }
@@ -300,6 +302,9 @@ fn main() {
             "{troubled} of {} cases could not be observed (transport trouble)",
             cases.len()
         ));
+    }
+    if backend_address_only {
+        report.retain_violations(|sig| sig.contains("client-address"));
     }
     std::process::exit(report.finish());
 }
